@@ -484,6 +484,74 @@ def dimension(db, q):
     return {qt: e for qt, e in d.items() if e != 0}
 
 
+LO, HI = Fraction(1, 10 ** 250), Fraction(10 ** 250)
+
+
+def in_range(v):
+    """zero, or comfortably inside the float range"""
+    v = abs(Fraction(v))
+    return v == 0 or LO < v < HI
+
+
+def exact_matching(ctx, q1, q2):
+    """Independent of the model: the factor unit matching multiplies each operand's value with, from the table
+    slopes (increment of one unit in the base unit): an item whose quantity type was seen before with another
+    unit contributes (slope(unit) / slope(used unit)) ** exponent.  Returns ([f1, f2], shifted) or None;
+    shifted = some SIMPLE operand (one item, exponent 1) takes the plain conversion and a unit with an offset is
+    involved, so its value is shifted, not only scaled."""
+    db = ctx.db
+
+    def slope(qt, u):
+        tb = db.GetInfo(qt, u).tobase
+        return Fraction(tb(1.0)) - Fraction(tb(0.0))
+
+    try:
+        found, factors, shifted = {}, [Fraction(1), Fraction(1)], False
+        for idx, q in enumerate((q1, q2)):
+            derived = len(q) > 1
+            for c, u, e in q:
+                qt = db.GetCategoryQuantityType(c)
+                used = found.get(qt)
+                if used is None:
+                    found[qt] = u
+                elif used != u:
+                    s_to = slope(qt, used)
+                    if s_to == 0:
+                        return None
+                    r = slope(qt, u) / s_to
+                    if r == 0 and int(e) < 0:
+                        return None
+                    factors[idx] *= r ** int(e)
+                    if int(e) == 1 and not derived and (u in ctx.affine or used in ctx.affine):
+                        shifted = True
+        return factors, shifted
+    except Exception:
+        return None
+
+
+def exact_result(ctx, f, q1, q2, x, y):
+    """The exact result of `Scalar(x, q1) f Scalar(y, q2)` when it is well defined: a Fraction; otherwise a
+    reason why nothing is demanded: 'shifted', 'zero divisor', 'out of range', 'unknown'."""
+    m = exact_matching(ctx, q1, q2)
+    if m is None:
+        return "unknown"
+    (f1, f2), shifted = m
+    if shifted:
+        return "shifted"
+    a, b = Fraction(x) * f1, Fraction(y) * f2
+    if not (in_range(f1) and in_range(f2) and f1 != 0 and f2 != 0 and in_range(a) and in_range(b)):
+        return "out of range"
+    if f in ("div", "floordiv"):
+        if b == 0:
+            return "zero divisor"
+        z = a / b
+        if f == "floordiv":
+            z = Fraction(math.floor(z))
+    else:
+        z = a + b if f == "sum" else a - b if f == "sub" else a * b
+    return z if in_range(z) else "out of range"
+
+
 def buildable(spec):
     try:
         build(spec)
